@@ -3,7 +3,7 @@
 run_unit(ctx) generates attribute histories on one dataset (created in the same session, so the
 un-cached code path of attribute_write.go is taken), replays them through the `hist` harness and
 compares, per history,
-  (a) the ok/err/panic class of every WriteAttribute / DeleteAttribute call and
+  (a) the ok/err class (a panic is its own class and is never predicted) of every WriteAttribute / DeleteAttribute call and
   (b) the attribute set listed after Close + reopen (name, datatype class, size, bit field, dims, raw bytes)
 with the Coq model coq/theories/Model/Attr.v (name_hash := Spec/Lookup3.hashlittle _ 0, parameters
 go_params base) evaluated by coqc on a generated cases file (Model/AttrTie.v: check_case).
@@ -155,7 +155,7 @@ def limit_histories():
     L = 65536 - (9 + 2 + 9 + 16 + 1)
     out.append([("set", b"a", "i8", b"\x01"), ("set", b"s", "str", b"s" * L), ("set", b"s", "str", b"s" * (L + 1)), ("set", b"b", "i8", b"\x02")])
     out.append([("set", b"x" * 65534, "i8", b"\x01"), ("set", b"y", "i8", b"\x02")])
-    out.append([("set", b"y", "i8", b"\x02"), ("set", b"x" * 65535, "i8", b"\x01"), ("set", b"y", "i8", b"\x03")])   # panics
+    out.append([("set", b"y", "i8", b"\x02"), ("set", b"x" * 65535, "i8", b"\x01"), ("set", b"y", "i8", b"\x03")])   # refused (panicked before df71171)
     return out
 
 
@@ -389,8 +389,6 @@ def run_unit(ctx):
             kid = None
             if code & 16:
                 kid = "C02-dense-heap-overflow"          # the model predicts the overflow (state Broken)
-            elif all(f.tag == "panic" for f in oracle) and not (code & 3) and any(len(o[1]) >= 65535 for o in rec["ops"]):
-                kid = "C02-attr-name-65535-panic"        # the model predicts the panic (encode_attr = EncPanic)
             if kid and kid in listed:
                 known_hits[kid] = known_hits.get(kid, 0) + 1
                 if known_hits[kid] == 1:
